@@ -60,6 +60,7 @@ def check_tables():
 # ---- hardening classes: falsy / subclassed containers, hostile equality --------------------------
 FalsyList = codec._falsy(list)        # instances are falsy whatever they hold
 FalsyDict = codec._falsy(dict)
+FalsySet = codec._falsy(set)
 
 
 class NTuple(tuple):
@@ -151,7 +152,7 @@ def tree_py(v):
     seq = [tree_py(x) for x in items]
     if cls == 'ntuple':
         return NTuple(*seq)
-    return {'list': list, 'tuple': tuple, 'set': set, 'frozenset': frozenset, 'flist': FalsyList}[cls](seq)
+    return {'list': list, 'tuple': tuple, 'set': set, 'frozenset': frozenset, 'flist': FalsyList, 'fset': FalsySet}[cls](seq)
 
 
 def arg_py(v):
@@ -237,7 +238,7 @@ def py_tree(o):
     for name, t in (('flist', FalsyList), ('ntuple', NTuple), ('list', list), ('tuple', tuple)):
         if isinstance(o, t):
             return {'k': 'c', 'cls': name, 'items': [py_tree(x) for x in o]}
-    for name, t in (('frozenset', frozenset), ('set', set)):
+    for name, t in (('fset', FalsySet), ('frozenset', frozenset), ('set', set)):
         if isinstance(o, t):
             return {'k': 'c', 'cls': name, 'items': sorted((py_tree(x) for x in o), key=repr)}
     return {'k': 'opaque', 's': type(o).__name__}
@@ -557,7 +558,7 @@ def plain_default(d):
     if d['k'] != 'c':
         return d
     d = dict(d)
-    d['cls'] = {'odict': 'dict', 'fdict': 'dict', 'flist': 'list', 'ntuple': 'tuple'}.get(d['cls'], d['cls'])
+    d['cls'] = {'odict': 'dict', 'fdict': 'dict', 'flist': 'list', 'ntuple': 'tuple', 'fset': 'set'}.get(d['cls'], d['cls'])
     d['items'] = [{'key': plain_default(e['key']), 'val': plain_default(e['val'])} if d['cls'] in MAPCLS else plain_default(e)
                   for e in d['items']]
     return d
